@@ -6,7 +6,8 @@ RULE = ("K: fdtdx.GaussianSmoothing2D.__call__ for std_discrete in {1,2,3}, desi
         "position, all 16 present/absent patterns of the four padding vectors over the run, values in [0,1] or [-3,3], "
         "constants; output compared with the model (same padded normalised-kernel convolution on binary64, exp passed as a "
         "parameter) at 1e-9 (observed 1e-16: only summation order and exp differ); kernel table compared separately. "
-        "Glue: no singleton axis -> exception, init_module's 2-D shape check, std_discrete = 0 (NaN on both sides). "
+        "Multi-entry dicts whose arrays differ in singleton-axis position (paddings present) or size (default padding) in ONE "
+        "call: shape kept, equal to the single-array call, model per entry. Glue: no singleton axis -> exception, init_module's 2-D shape check, std_discrete = 0 (NaN on both sides). "
         "Property oracle on the implementation for every case (independent of the model): min(inputs, paddings) <= out <= "
         "max; constants with matching/default padding fixed; affine combinations preserved (linear with default padding); "
         "mirroring either axis with mirrored/swapped paddings mirrors the output; default padding == "
@@ -59,6 +60,42 @@ def impl(sigma, x3, pads, init=True):
     if out.shape != x3.shape:
         return "error"
     return out
+
+
+def impl_dict(sigma, arrays, pads):
+    """ONE __call__ on a dict whose entries differ in shape / singleton-axis position; {key: numpy} or 'error'"""
+    j = J()
+    jnp = j["jnp"]
+    kw = {}
+    for name, p in zip(("padding_low_axis0", "padding_high_axis0", "padding_low_axis1", "padding_high_axis1"), pads):
+        if p is not None:
+            kw[name] = jnp.asarray(p, dtype=jnp.float64)
+    t = j["fdtdx"].GaussianSmoothing2D(std_discrete=sigma, **kw)
+    try:
+        out = t({k: jnp.asarray(a, dtype=jnp.float64) for k, a in arrays.items()})
+    except Exception:
+        return "error"
+    if list(out.keys()) != list(arrays.keys()):
+        return "error"
+    return {k: np.asarray(out[k], dtype=np.float64) for k in arrays}
+
+
+def prop_dict(sigma, arrays, pads, out=None):
+    """multi-entry call: every entry keeps its shape and equals the single-array call on that entry"""
+    arrays = {k: np.asarray(a, dtype=np.float64) for k, a in arrays.items()}
+    pads = [None if p is None else np.asarray(p, dtype=np.float64) for p in pads]
+    if out is None:
+        out = impl_dict(sigma, arrays, pads)
+    tag = f"std={sigma} dict shapes={[a.shape for a in arrays.values()]} pads={[p is not None for p in pads]}"
+    if isinstance(out, str):
+        return f"multi-entry call raised: {tag}"
+    for k, v in arrays.items():
+        if out[k].shape != v.shape:
+            return f"entry '{k}' changed shape {v.shape} -> {out[k].shape} in a multi-entry call: {tag}"
+        alone = impl(sigma, v, pads, init=False)
+        if isinstance(alone, str) or not np.array_equal(alone, out[k]):
+            return f"entry '{k}' differs from the single-array call: {tag}"
+    return None
 
 
 def run2d(sigma, x2, pads, v=2):
@@ -204,6 +241,39 @@ def run(ctx):
         d = prop(sigma, x2, pads, v, y, t=rng.uniform(-0.5, 1.5), full=(ci % ctx.scale(2, 1) == 0))
         if d:
             ctx.violation(case, d)
+    # multi-entry dicts mixing singleton-axis positions (same squeezed size, paddings present) or sizes (default padding)
+    for ci in range(ctx.scale(4, 24)):
+        sigma = 1 + ci % 2
+        nx, ny = rng.randint(2, 5), rng.randint(2, 6)
+        if ci % 2 == 0:
+            dims = [(nx, ny)] * 3
+            pads = gen_pads(rng, nx, ny, patterns[ci % 16], "unit")
+        else:
+            dims = [(nx, ny), (ny + 1, nx), (nx + 1, ny + 2)]
+            pads = [None] * 4
+        arrays = {}
+        for k, pos, d in zip(("a", "b", "c"), rng.shuffle([0, 1, 2]), dims):
+            arrays[k] = np.expand_dims(gen_design(rng, d[0], d[1], "unit"), pos)
+        if rng.chance(0.5):
+            arrays.pop("c")
+        out = impl_dict(sigma, arrays, pads)
+        case = {"sigma": sigma, "dict": {k: a.tolist() for k, a in arrays.items()},
+                "pads": [None if p is None else p.tolist() for p in pads]}
+        ctx.case(nontrivial=("dict", ci), op="mixed-dict", std=sigma, entries=len(arrays), pads_present=sum(p is not None for p in pads),
+                 singleton_positions="/".join(str(list(a.shape).index(1)) for a in arrays.values()))
+        for k, a in arrays.items():
+            if isinstance(out, str) or out[k].shape != a.shape:
+                ctx.mismatch("mixed-dict", case, {"entry": k, "impl": out if isinstance(out, str) else list(out[k].shape),
+                                                  "expected_shape": list(a.shape)})
+                continue
+            vax = list(a.shape).index(1)
+            lines.append(model_line(sigma, np.squeeze(a, vax), pads))
+            cbs.append(lambda rep, case=case, y=out[k].ravel(): ctx.expect_close("mixed-dict", case, y, h2fs(rep), tol=1e-9)
+                       if rep not in ("error", "bad-op") else ctx.mismatch("mixed-dict", case, {"model": rep}))
+        ctx.impl_property_evals += 1
+        d = prop_dict(sigma, arrays, pads, out)
+        if d:
+            ctx.violation(case, d)
     # kernel tables
     j = J()
     for sigma in (1, 2, 3):
@@ -233,13 +303,15 @@ def run(ctx):
 
 # ------------------------------------------------------------------------------------------- S
 def _eval(inp):
+    if "dict" in inp:
+        return prop_dict(inp["sigma"], inp["dict"], inp["pads"])
     pads = [None if p is None else np.asarray(p, dtype=np.float64) for p in inp["pads"]]
     return prop(inp["sigma"], np.asarray(inp["x2"], dtype=np.float64), pads, inp.get("v", 2))
 
 
 def search(ctx, hints):
     for h in hints:
-        if isinstance(h, dict) and "x2" in h and h.get("sigma", 0) >= 1:
+        if isinstance(h, dict) and ("x2" in h or "dict" in h) and h.get("sigma", 0) >= 1:
             ctx.impl_property_evals += 1
             d = _eval(h)
             if d:
